@@ -2,6 +2,20 @@
 use super::*;
 use crate::__verif::h::*;
 
+/// every arc drawing of the three arc catalogues (quarter, half, three quarters), as localized spans
+#[cfg(svgbob_verif)]
+pub(crate) fn arc_catalogue_spans() -> Vec<(&'static str, Span)> {
+    let mut out = vec![];
+    for (name, table) in [("quarter", &*QUARTER_ARC_SPAN), ("half", &*HALF_ARC_SPAN), ("three_quarters", &*THREE_QUARTERS_ARC_SPAN)] {
+        for arcs in table.values() {
+            for (_arc, span) in arcs.arc_spans.iter() {
+                out.push((name, span.clone()));
+            }
+        }
+    }
+    out
+}
+
 /// the catalogue of circle drawings (private static of the parent module)
 #[cfg(svgbob_verif)]
 pub(crate) fn catalogue() -> &'static Vec<(&'static str, Horizontal, f32, f32, Cell)> {
